@@ -206,8 +206,8 @@ Inductive op :=
 | ORename (n : nat) (k k' : string) (safe : bool)  (* rename_key_: lock_blocked *)
 | OClear (n : nat)                                 (* clear: lock_blocked *)
 | OPopitem (n : nat)                               (* popitem: lock_blocked; removes the last entry *)
-| OSelect (n : nat) (ks : list string)             (* select(*ks, inplace=True): guarded in _select *)
-| OExclude (n : nat) (ks : list string)            (* exclude(*ks, inplace=True): NOT guarded (D8) *)
+| OSelect (n : nat) (ks : list string)             (* select(ks.., inplace=True): guarded in _select *)
+| OExclude (n : nat) (ks : list string)            (* exclude(ks.., inplace=True): NOT guarded (D8) *)
 | OAppend (l m : nat)                              (* LazyStackedTensorDict.append: lock_blocked on the derived state *)
 | OInsert (l i m : nat)                            (* LazyStackedTensorDict.insert *)
 | ONewLazy (ms : list nat)                         (* lazy_stack([...]) *)
@@ -523,7 +523,7 @@ Definition step (fuel : nat) (s : st) (o : op) : option (st * outcome) :=
       end
   | OPickle n =>
       if negb (exists_live s n) then Some (s, Invalid) else
-      match pcopy (S fuel + fuel) fuel s [] n with
+      match pcopy fuel fuel s [] n with
       | None => None
       | Some (s1, _, _) => Some (s1, Done)
       end
